@@ -355,6 +355,83 @@ def one_shot_reuse(fn: ast.AST, generator_names: Set[str]) -> List[Tuple[str, in
     return out
 
 
+EAGER_CONSUMERS = {"list", "tuple", "set", "frozenset", "sorted", "sum", "any", "all", "max", "min", "dict", "len", "next", "bytes", "bytearray", "Counter"}
+EAGER_METHODS = {"join", "extend", "update", "executemany", "writelines", "union", "intersection", "difference"}
+
+
+def late_binding(fn: ast.AST) -> List[Tuple[int, str, str]]:
+    """generator expressions and lambdas that read a name which changes per iteration of an enclosing loop / comprehension, and that are
+    not consumed (called) on the spot: by the time they run, the name has its LAST value. (line, name, text)"""
+    parents: Dict[int, ast.AST] = {}
+    for n in ast.walk(fn):
+        for c in ast.iter_child_nodes(n):
+            parents[id(c)] = n
+    out: List[Tuple[int, str, str]] = []
+
+    def stored_names(node: ast.AST) -> Set[str]:
+        return {x.id for x in ast.walk(node) if isinstance(x, ast.Name) and isinstance(x.ctx, ast.Store)}
+
+    for node in ast.walk(fn):
+        if not isinstance(node, (ast.GeneratorExp, ast.Lambda)):
+            continue
+        # names the deferred code reads that it does not bind itself
+        if isinstance(node, ast.GeneratorExp):
+            bound = set()
+            for g in node.generators:
+                bound |= stored_names(g.target)
+            deferred: List[ast.AST] = [node.elt] + [c for g in node.generators for c in g.ifs] + [g.iter for g in node.generators[1:]]
+        else:
+            bound = {a.arg for a in node.args.args + node.args.kwonlyargs} | ({node.args.vararg.arg} if node.args.vararg else set()) \
+                | ({node.args.kwarg.arg} if node.args.kwarg else set())
+            deferred = [node.body]
+        free = {x.id for d in deferred for x in ast.walk(d) if isinstance(x, ast.Name) and isinstance(x.ctx, ast.Load)} - bound
+        # default-argument capture (lambda x=x: ..) binds at creation
+        if not free:
+            continue
+        # consumed on the spot?
+        p = parents.get(id(node))
+        immediate = False
+        if isinstance(p, ast.Call):
+            if p.func is node:
+                immediate = True            # (lambda ..)(..)
+            elif node in p.args and isinstance(p.func, ast.Name) and p.func.id in EAGER_CONSUMERS:
+                immediate = True
+            elif node in p.args and isinstance(p.func, ast.Attribute) and p.func.attr in EAGER_METHODS:
+                immediate = True
+        if isinstance(p, ast.keyword) and p.arg == "key":
+            immediate = True                # sort / min / max / groupby keys are applied by the call they are handed to
+        if isinstance(p, (ast.For, ast.comprehension)) and getattr(p, "iter", None) is node:
+            immediate = True                # iterated right here
+        # a deferred piece nested in another deferred piece (a lambda inside a generator expression) is judged against the loops of both
+        varying: Dict[str, int] = {}
+        cur = parents.get(id(node))
+        inner: ast.AST = node
+        while cur is not None and cur is not fn:
+            if isinstance(cur, (ast.For, ast.While)) and any(inner is x or any(inner is y for y in ast.walk(x)) for x in cur.body):
+                names = stored_names(cur.target) if isinstance(cur, ast.For) else set()
+                for st in cur.body:
+                    for x in ast.walk(st):
+                        if isinstance(x, (ast.Assign, ast.AugAssign, ast.AnnAssign, ast.For, ast.With)):
+                            names |= stored_names(x if not isinstance(x, (ast.For,)) else x.target)
+                for nm in names & free:
+                    varying.setdefault(nm, cur.lineno)
+            if isinstance(cur, (ast.GeneratorExp, ast.ListComp, ast.SetComp, ast.DictComp)) and cur is not node:
+                comp_names = set()
+                for g in cur.generators:
+                    comp_names |= stored_names(g.target)
+                for nm in comp_names & free:
+                    # inside a comprehension the deferred piece outlives the iteration unless it is called on the spot
+                    varying.setdefault(nm, cur.lineno)
+            if isinstance(cur, (ast.FunctionDef, ast.AsyncFunctionDef)):
+                break
+            inner = cur
+            cur = parents.get(id(cur))
+        if varying and not immediate:
+            nm = sorted(varying)[0]
+            out.append((node.lineno, nm, ast.unparse(node)[:70]))
+    return out
+
+
 def rule_one_shot_iterators(ck: Check, rule: str, files: Sequence[str]) -> None:
     """premise of every value-level rule: an expression the rules read as a sequence is not a half-consumed iterator"""
     gens = {fi.name for fi in ck.repo.all_functions()
@@ -376,6 +453,24 @@ def rule_one_shot_iterators(ck: Check, rule: str, files: Sequence[str]) -> None:
     if not bad:
         ck.ok(rule, "no generator / zip / map / filter object is consumed twice", "%d functions of the property's files scanned" % n, "")
     ck.stats["one-shot scan functions"] = n
+    # the other half of the premise: deferred code sees the values it was written against
+    ctl2 = ast.parse("def f(xs, out):\n    rows = []\n    for x in xs:\n        rows.append((x, y) for y in x.ys)\n    out.executemany('q', chain.from_iterable(rows))\n").body[0]
+    ctl2_ok = ast.parse("def f(xs, out):\n    for x in xs:\n        out.extend((x, y) for y in x.ys)\n").body[0]
+    if len(late_binding(ctl2)) != 1 or late_binding(ctl2_ok):
+        ck.unknown(rule, "positive control (late binding)", "the late-binding scan did not behave on its control snippets")
+        return
+    bad2 = 0
+    for fi in ck.repo.all_functions():
+        if fi.module.path.replace(ck.repo.root + "/", "") not in files and not any(fi.module.path.endswith(f) for f in files):
+            continue
+        src_fi = ck.repo.raw_function(fi) if hasattr(ck.repo, "raw_function") else fi.node
+        for line, nm, text in late_binding(src_fi):
+            bad2 += 1
+            ck.violated(rule, "%s: deferred code sees `%s` as it was when the code was written down" % (short(fi.qualname), nm),
+                        "`%s` is created inside a loop over `%s` but runs later: every copy then reads the LAST value of `%s` (rows filed under "
+                        "the last key, checks run on the last element only)" % (text, nm, nm), "%s:%d" % (fi.module.path, line))
+    if not bad2:
+        ck.ok(rule, "no generator expression / lambda created in a loop outlives the iteration it reads", "", "")
 
 
 def partial_on_empty(fn: ast.AST) -> List[Tuple[int, str]]:
